@@ -207,7 +207,7 @@ class Sweep:
 
     def __len__(self) -> int:
         """Return the number of unique combinations in the sweep."""
-        if self.exclude is not None:
+        if self.exclude is not None or not self.items:
             return len(self.list())
         if self.dims is None or set(self.dims) == self.items.keys():
             # Full Cartesian product; simply multiply together lengths of each dimension
